@@ -13,6 +13,7 @@ struct vp_stdio_model {
   long tok[8];
   int cursor, calls;
   int open_streams;
+  int fread_short;
 } vp_io;
 static FILE vp_file_obj;
 
@@ -33,9 +34,7 @@ size_t fread(void *ptr, size_t size, size_t n, FILE *f) {
       unsigned char b;
       p[k] = b;
     }
-  size_t r;
-  __CPROVER_assume(r <= n);
-  return r;
+  return vp_io.fread_short ? 0 : n;
 }
 int vp_fscanf4(FILE *f, const char *fmt, int *pm, int *pn, long *pp, long *pz) { /* "%d %d %ld\n%ld\n\n" */
   vp_io.calls++;
@@ -67,4 +66,15 @@ struct tm *localtime(const time_t *t) {
                    x.tm_min >= 0 && x.tm_min <= 59 && x.tm_sec >= 0 && x.tm_sec <= 60);
   vp_tm = x;
   return &vp_tm;
+}
+/* the only sprintf of io.c formats the PNG date text "%04d/%02d/%02d %02d:%02d:%02d" of a broken-down time whose fields are in
+ * range (see localtime above): exactly 19 characters and the terminator */
+int sprintf(char *s, const char *fmt, ...) {
+  for (int k = 0; k < 19; ++k) {
+    char ch;
+    __CPROVER_assume(ch != 0);
+    s[k] = ch;
+  }
+  s[19] = 0;
+  return 19;
 }
